@@ -40,7 +40,7 @@ def key_of(universe, step, clause):
     if 'ix' in a:
         parts.append('ix=' + a['ix']['k'])
     if 'o' in a:
-        parts.append(shape_of(universe, a['o']))
+        parts.append(shape_of(universe, a['o']) + (',self' if a['o'].get('k') == 'ref' and a['o'].get('ref') == tgt else ''))
     if op == 'red':
         parts.append('axis=%s,keep=%s' % (a['axis'], a['keep']))
     if op == 'mix_from':
